@@ -37,18 +37,18 @@ func (a *Anchoring) Spec_Apply(
 	props *model.BiasProps,
 	listener *model.BiasListener,
 ) *model.BiasedResult {
-	parsedProps := parseProps(props)
-	loss := a.getAnchoringEvaluatorFunction(&parsedProps.Loss, "loss")
-	gain := a.getAnchoringEvaluatorFunction(&parsedProps.Gain, "gain")
-	applier := a.getAnchoringApplier(&parsedProps.Applier)
-	allAlternatives := current.AllAlternatives()
-	referencePoints := a.evaluateAnchoringAlternatives(allAlternatives, parsedProps, &current.Criteria)
-	bounding := criteria_bounding.FromParams(&parsedProps.Applier.Params)
-	criteriaScaling := evaluatePerCriterionNormalizationScaleRatio(&current.Criteria, allAlternatives)
-	perReferencePointsDiffs := calculateDiffsPerReferencePoint(
+	parsedProps := Spec_parseProps(props)
+	loss := a.Spec_getAnchoringEvaluatorFunction(&parsedProps.Loss, "loss")
+	gain := a.Spec_getAnchoringEvaluatorFunction(&parsedProps.Gain, "gain")
+	applier := a.Spec_getAnchoringApplier(&parsedProps.Applier)
+	allAlternatives := current.Spec_AllAlternatives()
+	referencePoints := a.Spec_evaluateAnchoringAlternatives(allAlternatives, parsedProps, &current.Criteria)
+	bounding := criteria_bounding.Spec_FromParams(&parsedProps.Applier.Params)
+	criteriaScaling := Spec_evaluatePerCriterionNormalizationScaleRatio(&current.Criteria, allAlternatives)
+	perReferencePointsDiffs := Spec_calculateDiffsPerReferencePoint(
 		allAlternatives, referencePoints, &current.Criteria, criteriaScaling, loss, gain,
 	)
-	matchedBoundingsWithScales := matchScalingWithBounding(bounding, criteriaScaling)
+	matchedBoundingsWithScales := Spec_matchScalingWithBounding(bounding, criteriaScaling)
 	newDmp, applierResult := applier.fun.ApplyAnchoring(
 		current, &perReferencePointsDiffs, matchedBoundingsWithScales, applier.params, listener,
 	)
@@ -65,8 +65,8 @@ func (a *Anchoring) Spec_Apply(
 
 func Spec_parseProps(props *model.BiasProps) *AnchoringParams {
 	parsedProps := AnchoringParams{}
-	utils.DecodeToStruct(*props, &parsedProps)
-	checkAnchoringAlternatives(props, &parsedProps)
+	utils.Spec_DecodeToStruct(*props, &parsedProps)
+	Spec_checkAnchoringAlternatives(props, &parsedProps)
 	return &parsedProps
 }
 
@@ -94,7 +94,7 @@ func Spec_fetchAnchoringAlternativesWithCriteria(alternatives *[]model.Alternati
 	alternativesCount := len(*anchoringAlternatives)
 	result := make([]AnchoringAlternativeWithCriteria, alternativesCount)
 	for i, a := range *anchoringAlternatives {
-		alternativeWithCriteria := model.FetchAlternative(alternatives, a.Alternative)
+		alternativeWithCriteria := model.Spec_FetchAlternative(alternatives, a.Alternative)
 		result[i] = AnchoringAlternativeWithCriteria{
 			Alternative: alternativeWithCriteria,
 			Coefficient: a.Coefficient,
@@ -108,7 +108,7 @@ func Spec_matchScalingWithBounding(bounding *criteria_bounding.CriteriaBounding,
 	for c, s := range scaling {
 		valuesRange := s.ValuesRange
 		result[c] = BoundingWithScale{
-			bounding: bounding.WithRange(&valuesRange),
+			bounding: bounding.Spec_WithRange(&valuesRange),
 			scaling:  s,
 		}
 	}
